@@ -55,11 +55,14 @@ CHECKS = {
     "C04": dict(
         text="Coq: for every field, size, triangular patterns and L, U with non-zero diagonal and L*U = A, the modelled "
              "forward/backward substitution of LinearSolver and LinearSolverInPlace returns x with A x = b "
-             "(C04_solve_gives_Ax_eq_b, C04_solve_in_place_gives_Ax_eq_b; induction over rows). Tie: real "
+             "(C04_solve_gives_Ax_eq_b, C04_solve_in_place_gives_Ax_eq_b; induction over rows); for the in-place Doolittle pair "
+             "the premise is discharged: factor-then-solve gives A x = b with no hypothesis on the factors "
+             "(C04_doolittle_in_place_factor_then_solve). Tie: real "
              "LinearSolver/LinearSolverInPlace templates over Z_p vs extracted model, x per block, same case space as C03 "
              "with random right-hand sides, row-major and grouped dense vectors, padding rows holding garbage. Oracle: "
              "A*x == b over Z_p on the implementation.",
-        note="Premise L*U = A comes from C03 (partial there). Trusted: Coq kernel, extraction, harness, Zp class.",
+        note="Premise L*U = A comes from C03: proved there for Doolittle and DoolittleInPlace, tied for the two Mozart algorithms. "
+             "Trusted: Coq kernel, extraction, harness, Zp class.",
         technique="Coq proof (induction over substitution rows, any field) + exact-field differential tie",
         ref="6 C04"),
     "C05": dict(
